@@ -149,9 +149,11 @@ pub fn shapes(seed: u64, sample: usize, max_len: usize, max_m: usize, wd: &Watch
         let mut p = shape_problem(&lists[li], n, variant, &mut rng);
         let mut s = serde_json::Map::new();
         s.insert("max_iter".into(), json!(mi));
-        match rng.gen_range(0..6) {
+        match rng.gen_range(0..8) {
             0 => { s.insert("time_limit".into(), json!(0.0)); }
             1 => { s.insert("time_limit".into(), json!(1e-9)); }
+            // finite but far beyond anything a clock can count (the limit is printed in the banner and compared every pass)
+            2 => { s.insert("time_limit".into(), json!([1e19, 1e20, 1e300, f64::MAX][rng.gen_range(0..4)])); }
             _ => {}
         }
         if rng.gen::<f64>() < 0.3 { s.insert("presolve_enable".into(), json!(false)); }
